@@ -83,12 +83,13 @@ def maybe_numeric(a):
 class SwitchNode(Node):
     fast = None
     unresolved = None
+    trailing_default = None
 
     def _store_key(self, key, value, fast, unresolved):
         if isinstance(key, str):
             key = key.strip()
-            if key in fast:
-                return
+            if key in fast and key != "#default":
+                return  # the first of several equal cases wins; of several "#default" the last
 
             # (position among the unresolved keys, position among the resolved keys, value):
             # candidates are ranked by source order, never by comparing their values
@@ -123,8 +124,8 @@ class SwitchNode(Node):
             del no_key_seen[:]
             self._store_key(key, value, fast, unresolved)
 
-        if no_key_seen:
-            self._store_key("#default", no_key_seen[-1], fast, unresolved)
+        # a last case without "=" is the default and goes before any "#default = ..."
+        self.trailing_default = no_key_seen[-1] if no_key_seen else None
 
         self.unresolved = tuple(unresolved)
         self.fast = fast
@@ -161,6 +162,8 @@ class SwitchNode(Node):
                 retval = v
                 break
 
+        if retval is None and self.trailing_default is not None:
+            retval = self.trailing_default
         if retval is None:
             for a in expander.aliasmap.get_aliases("default") or ["#default"]:
                 retval = self.fast.get(a)
